@@ -1,0 +1,485 @@
+//go:build verif
+
+package main
+
+import (
+	"encoding/hex"
+	"errors"
+	"fmt"
+	"mltwist/internal/consoleui"
+	"mltwist/internal/consoleui/disassemble"
+	"mltwist/internal/consoleui/emulate"
+	"mltwist/internal/consoleui/verifhook"
+	"mltwist/internal/deps"
+	"mltwist/internal/elf"
+	"mltwist/internal/parser"
+	"mltwist/internal/riscv"
+	"mltwist/internal/state"
+	"mltwist/internal/state/memory"
+	"mltwist/pkg/expr"
+	"mltwist/pkg/model"
+	"os"
+	"regexp"
+	"sort"
+	"strconv"
+	"strings"
+	"time"
+)
+
+// End-to-end console sessions: the composition of all models (the console UI
+// over the real code model and the real emulator) against the program.
+//
+//	uireal <entry> <ncode> (<begin> <hex>)... <ndata> (<begin> <hex>)... <n> <k> LINE...
+//
+// builds the UI exactly like run/runIU of cmd/mltwist do for an ELF file whose
+// executable sections are the code blocks and whose loadable segments are the
+// code blocks and the data blocks: elf.newMemory(code), parser.Parse with
+// riscv.NewParser(Variant64, ExtM, ExtA), deps.NewCode(entry, ...),
+// memory.NewBytes(code + data), the emulator factory over Overlay(Bytes(image),
+// Sparse), disassemble.New, consoleui.New. Then the k script lines (LINE =
+// "x:<hex of the line>" or "-" for the empty line; every line is followed by
+// '\n') are fed to the line reader and the real UI.processCommand is called
+// until the session ends. After every call everything the user can see of the
+// current mode is reported.
+//
+// Result: err:<stage> (codemem, parse, newcode, bytes, uinew) or
+//
+//	S | STEP | STEP ...
+//	S    := <depth> <mode name hex>... <kind> <cursor> <print status>:<newlines> BODY
+//	BODY := D T K                                         kind dis
+//	      | E <ip|-> R <nregs> (<key> EXPR)... M <nmems> (<key hex> <nblocks> (<begin> <end>)...)...
+//	          W <dumpMem of the sparse layer of the emulation started last> T K       kind emu
+//	      | V <rows> <hex of the text Print(n) wrote>     kind mem
+//	D    := D= | D <entry> <nblocks> (<Idx> <Begin> <End> <nins>
+//	             (<Idx> <Begin> <text hex> <bytes hex> <LowerBound> <UpperBound>)...)...
+//	T    := T= | T <nlines> <text hex>...                 texts of the listing lines
+//	K    := K <nlines> <mark or ->...                     marks of the listing lines
+//	STEP := <status> <consumed> P <nprompts> (r <key hex> <width> | m <key hex> <addr> <width>)...
+//	        X <error class or -> (K- | K <n> <key hex>...) [S]
+//
+// status: skip, ok, error, left, quit, eof, PANIC, HANG as in op ui; S is
+// missing after quit, eof, PANIC and HANG. The prompts are all value prompts
+// printed during the call in order (a prompt repeated after a rejected value
+// is listed again). X is the class of the message of the last "error: " line
+// (see urErrClasses). K lists the memory keys printed by the command
+// "memories". D= and T= stand for a dump equal to the previous one of its kind
+// in the line.
+
+var urPromptRe = regexp.MustCompile(
+	`Please enter value of (register (\S+)|memory (\S+) at address 0x([0-9a-f]+) \(\d+\)) \[(\d+) bytes\]: `)
+
+var urAccessRe = regexp.MustCompile(`memory access of (\d+) bytes at address 0x([0-9a-f]+) exceeds the address space`)
+
+var urArgRe = regexp.MustCompile(`cannot parse argument (\d+)`)
+
+// urErrClasses maps substrings of error messages to classes; the first match
+// wins.
+var urErrClasses = []struct{ sub, class string }{
+	{"no command entered", "nocmd"},
+	{"not recognized", "unknown"},
+	{"too few args", "fewargs"},
+	{"too many args", "manyargs"},
+	{"cannot emulate instruction: cannot find", "stepnoins"},
+	{"cannot refresh cursor", "refresh"},
+	{"register is not set at all", "regunset"},
+	{"from cannot be an empty line", "emptyfrom"},
+	{"to cannot be an empty line", "emptyto"},
+	{"cannot swap block and an instruction", "blockins"},
+	{"block move failed", "blockmove"},
+	{"instructions cannot be moved among blocks", "amongblocks"},
+	{"instruction move failed", "insmove"},
+	{"line doesn't belong to a block", "noblock"},
+	{"line is not an instruction", "notins"},
+	{"invalid regex", "regex"},
+	{"line number too big", "toobig"},
+	{"belongs to no block", "emunoblock"},
+	{"is not instruction line", "emunotins"},
+	{"cannot create emulation", "emucreate"},
+	{"no line with address", "noaddr"},
+	{"offset cannot be negative", "negative"},
+	{"offset is too high", "toohigh"},
+	{"cannot find block at address", "noblockaddr"},
+	{"cannot find instruction at address", "noinsaddr"},
+	{"cannot process mode", "addmode"},
+}
+
+func urErrClass(msg string) string {
+	if m := urArgRe.FindStringSubmatch(msg); m != nil {
+		return "badarg:" + m[1]
+	}
+	if m := urAccessRe.FindStringSubmatch(msg); m != nil {
+		a, err := strconv.ParseUint(m[2], 16, 64)
+		if err == nil {
+			return fmt.Sprintf("access:%d:%s", a, m[1])
+		}
+	}
+	for _, c := range urErrClasses {
+		if strings.Contains(msg, c.sub) {
+			return c.class
+		}
+	}
+	return "other"
+}
+
+type urSession struct {
+	ui   *consoleui.UI
+	code *deps.Code
+	// stat and sparse belong to the emulation started last.
+	stat   *state.State
+	sparse *memory.Sparse
+	height int
+
+	lastCode, lastTexts string
+}
+
+func (s *urSession) listing(sb *strings.Builder, kind string, m consoleui.Mode) {
+	texts, marks := verifhook.Se2eListing(kind, m)
+
+	var tb strings.Builder
+	fmt.Fprintf(&tb, "T %d", len(texts))
+	for _, t := range texts {
+		fmt.Fprintf(&tb, " %s", uiHex(t))
+	}
+	if t := tb.String(); t == s.lastTexts {
+		sb.WriteString(" T=")
+	} else {
+		s.lastTexts = t
+		sb.WriteString(" ")
+		sb.WriteString(t)
+	}
+
+	fmt.Fprintf(sb, " K %d", len(marks))
+	for _, m := range marks {
+		if m == "" {
+			m = "-"
+		}
+		fmt.Fprintf(sb, " %s", m)
+	}
+}
+
+func (s *urSession) emuDump(sb *strings.Builder) {
+	st := s.stat
+	ip := "-"
+	if ex, ok := st.Regs.Load(expr.IPKey, model.AddrWidth); ok {
+		if c, ok := ex.(expr.Const); ok {
+			if v, ok := expr.ConstUint[model.Addr](c); ok {
+				ip = fmt.Sprintf("%d", v)
+			}
+		}
+	}
+	fmt.Fprintf(sb, "E %s %s", ip, dumpRegs(st.Regs))
+
+	mkeys := make([]string, 0, len(st.Mems))
+	for k := range st.Mems {
+		mkeys = append(mkeys, string(k))
+	}
+	sort.Strings(mkeys)
+	fmt.Fprintf(sb, " M %d", len(mkeys))
+	for _, k := range mkeys {
+		intvs := st.Mems[expr.Key(k)].Blocks().Intervals()
+		fmt.Fprintf(sb, " %s %d", uiHex(k), len(intvs))
+		for _, iv := range intvs {
+			fmt.Fprintf(sb, " %d %d", iv.Begin(), iv.End())
+		}
+	}
+
+	fmt.Fprintf(sb, " W %s", dumpMem(s.sparse))
+}
+
+func (s *urSession) state() string {
+	var sb strings.Builder
+	names := s.ui.VerifSuidModeNames()
+	fmt.Fprintf(&sb, "%d", len(names))
+	for _, n := range names {
+		fmt.Fprintf(&sb, " %s", uiHex(n))
+	}
+	m, ok := s.ui.VerifSuidTopMode()
+	if !ok {
+		sb.WriteString(" none")
+		return sb.String()
+	}
+
+	kind := uiKind(names[len(names)-1])
+	status, out := verifhook.Se2ePrint(m, s.height)
+	cursor := -1
+	func() {
+		defer func() {
+			if r := recover(); r != nil {
+				cursor = -2
+			}
+		}()
+		cursor = verifhook.SuidCursor(kind, m)
+	}()
+	fmt.Fprintf(&sb, " %s %d %s:%d ", kind, cursor, status, strings.Count(out, "\n"))
+
+	switch kind {
+	case "dis":
+		d := uiCodeDump(s.code)
+		if d == s.lastCode {
+			sb.WriteString("D=")
+		} else {
+			s.lastCode = d
+			sb.WriteString(d)
+		}
+		s.listing(&sb, kind, m)
+	case "emu":
+		func() {
+			defer func() {
+				if r := recover(); r != nil {
+					sb.WriteString(" E PANIC")
+				}
+			}()
+			s.emuDump(&sb)
+		}()
+		s.listing(&sb, kind, m)
+	case "mem":
+		fmt.Fprintf(&sb, "V %d %s", verifhook.Se2eMemRows(m), uiHex(out))
+	default:
+		sb.WriteString("O")
+	}
+	return sb.String()
+}
+
+func urPrompts(out string) string {
+	ms := urPromptRe.FindAllStringSubmatch(out, -1)
+	var sb strings.Builder
+	fmt.Fprintf(&sb, "P %d", len(ms))
+	for _, m := range ms {
+		if m[2] != "" {
+			fmt.Fprintf(&sb, " r %s %s", uiHex(m[2]), m[5])
+			continue
+		}
+		a, err := strconv.ParseUint(m[4], 16, 64)
+		if err != nil {
+			panic(err)
+		}
+		fmt.Fprintf(&sb, " m %s %d %s", uiHex(m[3]), a, m[5])
+	}
+	return sb.String()
+}
+
+// urMemories extracts the keys printed by the command "memories".
+func urMemories(out string) string {
+	i := strings.Index(out, "program wrote ")
+	if i < 0 {
+		return "K-"
+	}
+	var keys []string
+	for _, l := range strings.Split(out[i:], "\n")[1:] {
+		if !strings.HasPrefix(l, "\t") {
+			break
+		}
+		keys = append(keys, uiHex(l[1:]))
+	}
+	return strings.TrimSpace(fmt.Sprintf("K %d %s", len(keys), strings.Join(keys, " ")))
+}
+
+func urRun(build func() (*urSession, string), lines []string) string {
+	s, stage := build()
+	if stage != "" {
+		return "err:" + stage
+	}
+
+	consumed, eofs := 0, 0
+	text := strings.Join(lines, "\n")
+	if len(lines) > 0 {
+		text += "\n"
+	}
+	verifhook.SuidSetInput(text, func() { consumed++ }, func() {
+		eofs++
+		if eofs > uiEOFBudget {
+			panic(uiHang{})
+		}
+	})
+
+	var sb strings.Builder
+	sb.WriteString(s.state())
+
+	next := 0
+	// Every call consumes at least one line or ends the session.
+	for step := 0; step <= len(lines); step++ {
+		line := ""
+		if next < len(lines) {
+			line = lines[next]
+		}
+
+		before := consumed
+		eofs = 0
+		status := ""
+		out := verifhook.CaptureStdout(func() {
+			defer func() {
+				if r := recover(); r != nil {
+					if _, ok := r.(uiHang); ok {
+						status = "HANG"
+						return
+					}
+					if os.Getenv("VERIF_PANIC_TEXT") != "" {
+						fmt.Fprintf(os.Stderr, "panic on uireal line %q: %v\n", line, r)
+					}
+					status = "PANIC"
+				}
+			}()
+			err := s.ui.VerifSuidProcessCommand()
+			switch {
+			case err == nil:
+				status = "ok"
+			case errors.Is(err, consoleui.ErrQuit):
+				status = "quit"
+			default:
+				status = "eof"
+			}
+		})
+
+		class := "-"
+		lastLine := ""
+		if strings.HasSuffix(out, "\n") {
+			ls := strings.Split(out, "\n")
+			lastLine = ls[len(ls)-2]
+		}
+		if status == "ok" {
+			switch {
+			case strings.Contains(lastLine, "error: "):
+				status = "error"
+				i := strings.LastIndex(lastLine, "error: ")
+				class = urErrClass(lastLine[i+len("error: "):])
+			case strings.HasPrefix(lastLine, "leaving mode "):
+				status = "left"
+			case out == "" && consumed-before == 1 && strings.TrimSuffix(line, "\r") == "":
+				// bufio.ScanLines drops one trailing carriage return
+				status = "skip"
+			}
+		}
+
+		fmt.Fprintf(&sb, " | %s %d %s X %s %s", status, consumed-before, urPrompts(out), class, urMemories(out))
+		next = consumed
+		if status == "quit" || status == "eof" || status == "PANIC" || status == "HANG" {
+			break
+		}
+		sb.WriteString(" ")
+		sb.WriteString(s.state())
+	}
+
+	return sb.String()
+}
+
+func init() {
+	register("uireal", func(t *tokens) string {
+		entry := model.Addr(t.uint())
+		code := semuBlocks(t)
+		data := semuBlocks(t)
+		height := t.int()
+		k := t.int()
+		if k < 0 || k > 1000 || height < 0 || height > 10000 {
+			panic(parseError("uireal parameters out of the harness range"))
+		}
+		lines := make([]string, k)
+		for i := range lines {
+			tok := t.next()
+			switch {
+			case tok == "-":
+			case strings.HasPrefix(tok, "x:"):
+				bs, err := hex.DecodeString(tok[2:])
+				if err != nil {
+					panic(parseError("bad hex line"))
+				}
+				if strings.ContainsAny(string(bs), "\n") || len(bs) > 60000 {
+					panic(parseError("script line with a newline or longer than 60000 bytes"))
+				}
+				lines[i] = string(bs)
+			default:
+				panic(parseError("bad script line"))
+			}
+		}
+
+		build := func() (*urSession, string) {
+			codeBlocks := make([]elf.Block, 0, len(code))
+			for _, b := range code {
+				codeBlocks = append(codeBlocks, elf.VerifNewBlockSemu(b.begin, b.bs))
+			}
+			codeMem, err := elf.VerifNewMemorySemu(codeBlocks)
+			if err != nil {
+				return nil, "codemem"
+			}
+
+			inss, err := parser.Parse(codeMem, riscv.NewParser(riscv.Variant64, riscv.ExtM, riscv.ExtA))
+			if err != nil {
+				return nil, "parse"
+			}
+			program, err := deps.NewCode(entry, inss)
+			if err != nil {
+				return nil, "newcode"
+			}
+
+			memBlocks := make([]memory.ByteBlock, 0, len(code)+len(data))
+			for _, b := range code {
+				memBlocks = append(memBlocks, elf.VerifNewBlockSemu(b.begin, b.bs))
+			}
+			for _, b := range data {
+				memBlocks = append(memBlocks, elf.VerifNewBlockSemu(b.begin, b.bs))
+			}
+			byteMem, err := memory.NewBytes(memBlocks)
+			if err != nil {
+				return nil, "bytes"
+			}
+
+			s := &urSession{code: program, height: height}
+			// emulF of cmd/mltwist runIU.
+			emulF := func(p *deps.Code, ip model.Addr) (consoleui.Mode, error) {
+				sparse := memory.NewSparse()
+				m := memory.NewOverlay(byteMem, sparse)
+
+				stat := &state.State{
+					Regs: state.NewRegMap(),
+					Mems: memory.MemMap{
+						riscv.MemoryKey: m,
+					},
+				}
+
+				emul, err := emulate.New(p, ip, stat)
+				if err != nil {
+					return nil, fmt.Errorf("cannot create emulation mode: %w", err)
+				}
+
+				s.stat, s.sparse = stat, sparse
+				return emul, nil
+			}
+
+			disass := disassemble.New(program, emulF)
+			ui, err := consoleui.New(disass)
+			if err != nil {
+				return nil, "uinew"
+			}
+			s.ui = ui
+			return s, ""
+		}
+
+		type answer struct {
+			res      string
+			panicked bool
+		}
+		ch := make(chan answer, 1)
+		go func() {
+			defer func() {
+				if r := recover(); r != nil {
+					if os.Getenv("VERIF_PANIC_TEXT") != "" {
+						fmt.Fprintf(os.Stderr, "panic in uireal op: %v\n", r)
+					}
+					ch <- answer{panicked: true}
+				}
+			}()
+			ch <- answer{res: urRun(build, lines)}
+		}()
+		select {
+		case a := <-ch:
+			if a.panicked {
+				return "PANIC"
+			}
+			return a.res
+		case <-time.After(20 * time.Second):
+			// A loop that does not even read input: the runaway goroutine
+			// cannot be stopped. vcheck/core.py records the line as CRASH.
+			os.Exit(3)
+			return ""
+		}
+	})
+}
